@@ -241,7 +241,12 @@ class Lookup(ABC):
         :param cards: The cards to look up.
         :return: The optional corresponding lookup entry.
         """
-        return self.__entries.get(self._get_key(cards))
+        try:
+            key = self._get_key(cards)
+        except ValueError:
+            return None
+
+        return self.__entries.get(key)
 
     def _get_key(self, cards: CardsLike) -> tuple[int, bool]:
         cards = Card.clean(cards)
